@@ -54,6 +54,8 @@ def lift(position, values=None):
 
 # extra object/array values aimed at the DSL-built classes of gen/elements.py
 V_OBJ = [
+    {"k": 1, "a": 1, "b": "s", "a b": "x"}, {"k": 1, "a": 1, "b": "s", "a b": 5}, {"k": 1, "a": 1, "b": "s", "a_b": "x"},
+    {"class": 1}, {"class": "x"}, {"title": "t"}, {"author": "a"}, {"title": "t", "author": "a"}, {"title": 1, "note": "n"},
     {"a": 1, "b": "s"}, {"b": "s"}, {"a": "x", "b": "s"}, {"class": 1, "a b": "x"}, {"a b": "x", "c": [1]}, {"a b": "x", "class_": 9},
     {"k": 1, "b": 2}, {"k": 1, "b": 2, "d": 4}, {"b": 2}, {"a": 1, "b": "s", "x1": 2}, {"a": 1, "b": "s", "x1": "n"}, {"abcd": 1},
     {"a": 1, "sx": "v", "at": "long", "zz": 3}, {"a": {"x": [1]}, "q": "notint"}, {"a": 1}, {"a": True},
